@@ -11,12 +11,12 @@ CLAIMS = {
     "C02": dict(cat="proof", tech="Verus on fragments of term(): operator dispatch table (verbatim arms) and left-fold loop",
                 text="Partial: (a) every operator token of the formula grammar is dispatched by term() to the function it denotes with operands in (lhs, rhs) order — the `match op` arms are verified verbatim against the operator table; (b) one grammar level evaluates as a left fold in source order. Precedence between levels and parenthesis override are parser code and are NOT decided.",
                 note="Assumed: nom many0(pair(..)) collects in source order; compilers are stand-ins returning tagged results; the fold is proved on an index-loop transcription guarded by an anchor check of the loop body.", ref="4 C02"),
-    "C03": dict(cat="model_checking", tech="Kani contract harnesses on the generated Access* kernel structs against a 1-based column-major reference model",
-                text="Every access kernel struct (scalar, index vector, mask, `:` in one and two positions) is run on real nalgebra storage with unconstrained element values and unconstrained index contents at fixed shapes: in-range => exactly the model's elements in the documented shape, source unchanged, idempotent; out-of-range / wrong mask length => must not produce a value. Bounded in shape; dispatch (subscript(), arms) not executed.",
-                note="Trusted: Kani/CBMC, the reference model in contracts/common/ixmodel.rs; `out` allocated as the dispatch arm allocates it (read off the arm text); kernel panics count as rejection (catch_unwind not verified).", ref="4 C03"),
-    "C04": dict(cat="model_checking", tech="Kani contract harnesses with frame conditions on the generated Assign*/Set* kernel structs",
-                text="Scalar-source assignment through every index form and vector-source assignment through distinct linear indices: exactly the addressed elements are set, every other element and the shape unchanged (frame), out-of-range target / wrong mask length rejected. Bounded in shape. Op-assignment, 2-D vector sources, failure atomicity and kind mismatch are not decided.",
-                note="Trusted: Kani/CBMC, ixmodel.rs. Kernel level only; a panic counts as rejection; state after a panic cannot be observed under Kani.", ref="4 C04"),
+    "C03": dict(cat="proof", tech="Verus contracts on the index-loop read kernels transcribed onto a verified matrix model (panic = early None) + Kani twins on the generated Access* structs + syntactic routing pass",
+                text="Kernel level. For 17 read kernels of access/matrix.rs (scalar, index vector, logical mask, `:` in one and two positions) and EVERY matrix size: with valid indices the kernel returns normally and the output holds exactly the elements the 1-based column-major model selects, in reference order and documented shape (.value); if it returns normally every addressed position existed (.reject); mask length == indexed dimension (.masklen: violated by 7 kernels, known findings). The source is only borrowed immutably. Kani twins run the real structs on real nalgebra storage at fixed shapes (bounded) and cover the two iterator kernels outside the transcription; subscript() push order by a syntactic pass (bounded).",
+                note="Assumed: nalgebra containers behave as contracts/common/matmodel.rs (column-major, bounds-checked, resize gives the requested shape); elements modelled as u64 (kernels only clone them); `out` allocated as the dispatch arm allocates it (read off the arm); a kernel panic is an error (catch_unwind not verified). Not decided: dispatch arms, Value::as_index, swizzle/table/record access.", ref="4 C03"),
+    "C04": dict(cat="proof", tech="Verus contracts with frame conditions on the assignment and op-assignment kernels transcribed onto the matrix model + Kani twins on the generated Assign*/Set*/«Op»Assign* structs + syntactic routing pass",
+                text="Kernel level. For 17 assignment kernels (assign/matrix.rs) and 16 op-assignment kernels (machines/math/src/op_assign, 4 per operator) and EVERY matrix size: with valid (and, for vector sources and op-assignment, distinct) indices exactly the addressed elements receive the value / op(old, source), every other element and the shape are unchanged (.value with frame); returns normally => every addressed position existed (.reject); mask length (.masklen, where the dispatch arm does not guard it); failure leaves the sink unchanged (.atomic: violated by every index-vector kernel, known finding). Kani twins at fixed shapes (bounded) cover the iterator kernels outside the transcription; subscript_ref() push order by a syntactic pass.",
+                note="Assumed: matmodel.rs as for C03; element operation of op-assignment = one uninterpreted total function per operator (overflow / division by zero of the element type outside the model); typed dispatch arms reject mismatched masks for the 2-D mask forms (read off the arms, confirmed natively). Not decided: 2-D vector sources, read-back composition with C03, kind mismatch, dispatch arms.", ref="4 C04"),
     "C05": dict(cat="proof", tech="Verus on the real SymbolTable methods and on the name-guard fragments of variable_define / variable_assign; Kani on detach_variable_value",
                 text="SymbolTable::{get,get_mutable,contains,insert} proved against a map view with the invariant 'mutable binding => same cell as the binding'; the guards of variable_define (existing name => error) and variable_assign (undefined / immutable => the right error, before anything is written) proved on the verbatim statements; storage separation of `y := x` checked on the real detach_variable_value (known finding). The history clause is a lemma over these contracts.",
                 note="Assumed: Value/Ref stand-ins (a cell is an identity); statements after the guards (expression evaluation, kernels) are outside; 'never aborts the host' (catch_unwind) not decided.", ref="4 C05"),
@@ -33,10 +33,10 @@ CLAIMS = {
                 text="ConvertScalarToScalarBasic<F,T>::solve for all 144 ordered pairs of the primitive numeric kinds: representable => exactly that value (widen-then-narrow identity), float->int truncates toward zero and clamps, NaN -> 0; oracles avoid the cast under test. Matrix conversion / reshape / unsupported pairs not yet under contract.",
                 note="Trusted: Kani/CBMC bit-precise casts; std TryFrom as integer oracle.", ref="4 C12"),
     "C14": dict(cat="proof", tech="Kani on the Hash/Eq law of Value with a recording hasher",
-                text="Partial: for every scalar kind, a == b implies identical bytes are fed to the hasher (the law that makes IndexSet<Value> keep distinct elements), full value domain; signed-zero floats pinned as a known finding. The set algebra itself is indexmap's assumed contract.",
+                text="Partial: for every scalar kind, a == b implies identical bytes are fed to the hasher (the law that makes IndexSet<Value> keep distinct elements), full value domain (signed zeros repaired by a fix: commit); MechSet metadata refresh of the set operators under an assumed IndexSet spec (Verus); operand order of the MutableReference fallback arms (Verus fragments). The set algebra itself is indexmap's assumed contract.",
                 note="Hash containers cannot run under CBMC (P12); set operations, metadata refresh and comprehensions not decided.", ref="4 C14"),
     "C15": dict(cat="proof", tech="Kani on count fragments cut verbatim from the dispatch-arm macros + fill kernels on real nalgebra",
-                text="Element-count computation of the four range dispatch arms (fragment F, verbatim text, every kind) against the exact count over mathematical integers, loop-free over the full domain; fill kernels Range*Scalar::solve against out[i]==a+i*s (bounded length 4). Known defects pinned as known findings.",
+                text="Element-count computation of the four range dispatch arms (fragment F, verbatim text, every kind) against the exact count over mathematical integers, loop-free over the full domain; fill kernels Range*Scalar::solve against out[i]==a+i*s on real nalgebra (bounded length 4) and, transcribed over Vec<T>, proved by Verus for every length. Known defects pinned as known findings (span wider than the kind, fractional exclusive float ranges, negative steps); the fill overflow at the kind's maximum was repaired by a fix: commit.",
                 note="Trusted: Kani/CBMC; the arm's allocation and storage-type match are read off the macro text. 64-bit stepped ranges bounded to |x|<2^52; 128-bit stepped ranges and float stepped ranges not covered.", ref="4 C15"),
     "C19": dict(cat="proof", tech="Kani kernel harnesses with re-evaluation assertions + Verus on the loop nest of Interpreter::step",
                 text="Partial: for every elementwise operator kernel (one 8-bit kind, four representative form pairs; thorough: more kinds and all forms) solve() leaves its inputs unchanged and a second solve() changes nothing; Interpreter::step(0, n) solves plan[0..len) in order n times and n single steps equal one n-step (proved on a transcription of the loop nest guarded by an anchor check). That evaluators build plans whose steps write fresh cells, and cross-process determinism, are not decided.",
